@@ -159,6 +159,9 @@ func urisOf(mp *m3u.Media) []string {
 func c06Check(st *msState, s *vsched.Sched, tr *vsched.Trace) (string, []vsched.Viol) {
 	var viols []vsched.Viol
 	add := func(sig, msg string) { viols = append(viols, vsched.Viol{Sig: sig, Msg: msg}) }
+	if tr.Livelock != "" {
+		add("livelock", tr.Livelock)
+	}
 	for _, p := range tr.Panics {
 		add("panic", p)
 	}
